@@ -272,4 +272,44 @@ def gcpWld2pix (Q : Pt → Pt) (g : GeoBox) (w : Pt) : Res Pt := do
 /-- `GCPGeoBox.approx`: `GeoBox(shape, mapping.approx * affine, crs)` -/
 def gcpApprox (B : Aff) (g : GeoBox) : GeoBox := mulWld B g
 
+/-! ### table of public accessors
+
+Every public attribute of `GeoBox` / `GCPGeoBox` and every public function of
+`odc.geo.geobox` taking a geobox, with the model definition (or the reason) that covers it.
+The harness discovers the live names by introspection on every run and asks the driver
+whether the table knows them: an accessor added to the library that is not listed here is a
+correspondence break. -/
+def accessorTable : List (String × String) := [
+  -- the triple itself
+  ("shape", "GeoBox.ny/nx"), ("width", "GeoBox.nx"), ("height", "GeoBox.ny"), ("aspect", "nx / ny"),
+  ("is_empty", "0 ∈ shape"), ("crs", "GeoBox.crs"), ("dimensions", "crs tag"), ("dims", "crs tag"),
+  ("affine", "GeoBox.A"), ("transform", "GeoBox.A"), ("linear", "constant"),
+  ("axis_aligned", "isAffineST"), ("alignment", "A.c mod |A.a|, A.f mod |A.e| (axis aligned)"),
+  -- views of the mapping
+  ("pix2wld", "pix2wld"), ("wld2pix", "wld2pix"), ("extent", "extent"), ("boundingbox", "boundingbox"),
+  ("boundary", "edge points of the pixel rectangle"), ("coordinates", "coordinates"), ("coords", "coordinates"),
+  ("resolution", "resolution"), ("project", "pix2wld / wld2pix on vertices"),
+  ("footprint", "extent (same crs; reprojection is C07/C11)"),
+  ("geographic_extent", "extent (geographic / no crs; reprojection is C07/C11)"),
+  ("map_bounds", "extent vertices 0 and 2 (geographic / no crs)"), ("qr2sample", "points inside the pixel rectangle"),
+  -- view operations
+  ("compute_crop", "crop"), ("crop", "resize"), ("expand", "resize"), ("pad", "pad"), ("pad_wh", "padWh"),
+  ("translate_pix", "translatePix"), ("left", "left"), ("right", "right"), ("top", "top"), ("bottom", "bottom"),
+  ("flipx", "flipx"), ("flipy", "flipy"), ("rotate", "rotate"), ("center_pixel", "centerPixel"),
+  ("compute_zoom_out", "zoomOut"), ("zoom_out", "zoomOut"),
+  ("compute_zoom_to", "zoomToShape / zoomToNum / zoomToRes"), ("zoom_to", "zoomToShape / zoomToNum / zoomToRes"),
+  ("buffered", "buffered"), ("scaled_down_geobox", "scaledDown"), ("affine_transform_pix", "mulPix"),
+  ("gbox_boundary", "alias of boundary"),
+  -- GCP
+  ("approx", "gcpApprox"), ("gcps", "control points pulled back through A⁻¹"),
+  -- other properties / not a view of the mapping
+  ("enclosing", "C08"), ("snap_to", "C16"), ("overlap_roi", "C16"), ("to_crs", "C11"),
+  ("from_bbox", "C08"), ("from_geopolygon", "C08"), ("from_rio", "constructor"),
+  ("pixel_translation", "C16"), ("bounding_box_in_pixel_domain", "C16"),
+  ("geobox_union_conservative", "C16"), ("geobox_intersection_conservative", "C16"),
+  ("svg", "display"), ("grid_lines", "display"), ("outline", "display"), ("explore", "display"),
+  ("compat", "datacube interop")]
+
+def accessorKnown (name : String) : Bool := accessorTable.any (fun e => e.1 == name)
+
 end OdcGeo.C02
